@@ -162,7 +162,7 @@ PROPS = {
               dict(harness='k_cmp_gt', klass='complete', schema='raw', family='filter-cmp:gt', target='filter::nodes::cmp_values(GreatThan)', timeout=400),
               dict(harness='k_cmp_ge', klass='complete', schema='raw', family='filter-cmp:ge', target='filter::nodes::cmp_values(GreatThanEq)', timeout=400),
               dict(harness='k_cmp_lt_bool_literal', klass='complete', schema=None, family=None, target='filter::nodes::cmp_values(LessThan) vs Bool literal', timeout=400)],
-        witness=None,
+        witness='enum:filter-eval',
         design_ref='DESIGN.md section 4, C07',
         level_text=('Proof (Kani/CBMC, complete over the 7 heap-free kinds x all non-NaN f64, one harness per operator) of the comparison '
                     'kernel cmp_values with the real PartialEq/PartialOrd of Value: a comparison holds only if the tag has a value; '
@@ -323,8 +323,8 @@ PROPS = {
         title='Zinc encode -> decode returns the original value',
         verus=[('u_zparse', [r'^lemma_keyword_roundtrip$', r'^Lexer::read$', r'^parse_literal$', r'^parse_str_escape$', r'^lemma_lit_run_bytes$',
                              r'^parse_str$', r'^parse_str_unicode_escape$', r'^lemma_str_body_plain$', r'^lemma_hex4_value$', r'^lemma_str_body_char$',
-                             r'^lemma_str_body_enc$', r'^lemma_str_roundtrip$', r'^parse_ref$', r'^lemma_ref_run_prefix$', r'^lemma_ref_roundtrip$', r'^parse_uri$', r'^lemma_uri_body_plain$', r'^lemma_uri_body_char$', r'^lemma_uri_body_enc$', r'^lemma_uri_roundtrip$']),
-               ('u_enc', [r'^write_quoted_str$', r'^Str::to_zinc$', r'^Ref::to_zinc$', r'^Uri::to_zinc$', r'^lemma_str_escape_inverse$', r'^Marker::to_zinc$', r'^Remove::to_zinc$', r'^Na::to_zinc$', r'^Bool::to_zinc$', r'^Number::to_zinc$'])],
+                             r'^lemma_str_body_enc$', r'^lemma_str_roundtrip$', r'^parse_ref$', r'^lemma_ref_run_prefix$', r'^lemma_ref_roundtrip$', r'^parse_uri$', r'^lemma_uri_body_plain$', r'^lemma_uri_body_char$', r'^lemma_uri_body_enc$', r'^lemma_uri_roundtrip$', r'^parse_symbol$', r'^lemma_symbol_roundtrip$']),
+               ('u_enc', [r'^write_quoted_str$', r'^Str::to_zinc$', r'^Ref::to_zinc$', r'^Uri::to_zinc$', r'^Symbol::to_zinc$', r'^lemma_str_escape_inverse$', r'^Marker::to_zinc$', r'^Remove::to_zinc$', r'^Na::to_zinc$', r'^Bool::to_zinc$', r'^Number::to_zinc$'])],
         kani=[dict(harness='k_zinc_keywords', klass='complete', schema=['u8'], family=None, target='to_zinc of Marker/Remove/Na/Bool')],
         witness='enum:zinc-roundtrip-scalars',
         design_ref='DESIGN.md section 4, C01',
@@ -339,10 +339,12 @@ PROPS = {
                     '(1c) Uris: Uri::to_zinc emits backtick + enc_uri_body + backtick (backtick and backslash escaped, every other character as '
                     'itself), parse_uri returns utf8_decode(uri_body(bytes after the backtick)) on its real body, and lemma_uri_roundtrip composes them '
                     'for every Uri without C0 control characters (which the writer drops; the property excludes them). '
+                    '(1d) Symbols: ^ + value on the writer side, ^ + the maximal run of ref bytes starting with a lower-case letter on the reader side, '
+                    'lemma_symbol_roundtrip for every such symbol. '
                     '(2) Keyword-valued scalars (Marker, Remove, NA, true, false; Null on the reader side): the real writers emit M R NA T F '
                     '(Verus after rule R18, and Kani), Lexer::read maps a capitalised literal through the grammar\'s keyword table, and '
                     'lemma_keyword_roundtrip composes them.'),
-        not_decided=('XStr (its value reuses the proved quoted-string writer and reader; the Type( ) framing is proved panic-free only); Symbol; '
+        not_decided=('XStr (its value reuses the proved quoted-string writer and reader; the Type( ) framing is proved panic-free only); '
                      'the Uri reader clause, like the Ref one, assumes an empty peek stash at the start of the token; '
                      'the Ref reader clause assumes an empty peek stash at the start of the token (true after every token the lexer produces, not proved); Number, Coord, Date, Time, DateTime (core::fmt / chrono text); List, Dict and Grid '
                      'layout on the reader side; nesting. Assumed: the UTF-8 axioms of strspec.vt, the two core::fmt helper contracts used by '
